@@ -21,7 +21,8 @@ import (
 // Op is one operation of a sequence.
 //
 // Form: 0 = IPv4 net (4-byte IP, 4-byte mask); 1 = IPv6 net; 2 = 4-byte IP with 16-byte mask;
-// 3 = non-contiguous 4-byte mask; 4 = 16-byte (v4-mapped) IP with 4-byte mask (ambiguous:
+// 3 = non-contiguous 4-byte mask; 5 = ::/0; 6 = nil mask; 7 = 4-byte IP with 16-byte zero mask;
+// 4 = 16-byte (v4-mapped) IP with 4-byte mask (ambiguous:
 // may be rejected without effect or be taken as the IPv4 range).
 type Op struct {
 	Rem  bool   `json:"rem,omitempty"`
@@ -95,6 +96,12 @@ func (o Op) ipnet() *net.IPNet {
 	case 4:
 		b := u2ip(o.IP)
 		return &net.IPNet{IP: net.IPv4(b[0], b[1], b[2], b[3]), Mask: net.CIDRMask(o.Ones, 32)}
+	case 5: // the IPv6 default route ::/0 (prefix length 0, but not an IPv4 net)
+		return &net.IPNet{IP: make(net.IP, 16), Mask: net.CIDRMask(0, 128)}
+	case 6: // no mask at all (Mask.Size() reports 0,0)
+		return &net.IPNet{IP: u2ip(o.IP)}
+	case 7: // 4-byte address with the 16-byte all-zero mask
+		return &net.IPNet{IP: u2ip(o.IP), Mask: net.CIDRMask(0, 128)}
 	}
 	return &net.IPNet{IP: u2ip(o.IP), Mask: net.CIDRMask(o.Ones, 32)}
 }
@@ -532,7 +539,7 @@ func randCase(r *rand.Rand) Case {
 				o.IP = 0x64000000 | (1+uint32(r.Intn(int(uniq))))<<4 | uint32(r.Intn(16))
 			}
 		case x < 94:
-			o.Form = 1 + r.Intn(3)
+			o.Form = []int{1, 2, 3, 5, 6, 7}[r.Intn(6)]
 			o.Rem = r.Intn(2) == 0
 		default:
 			o.Form = 4
